@@ -269,3 +269,27 @@ def le(labels, big_endian):
     """Normalise a label list to LSB-first."""
     labels = list(labels)
     return labels[::-1] if big_endian else labels
+
+
+def add_operand_users(net, operand_lists, rng):
+    """Hostile host: give the chosen operand bits pre-existing users of the kinds the generators
+    themselves create (AND/XOR/OR/GT... of arity 2..3 mixing bits of different operands, both
+    operand orders), so that any 'reuse an existing gate' / 'look at the users' logic is exercised."""
+    g = dict(net.gates)
+    bits = [l for ol in operand_lists for l in ol]
+    if not bits:
+        return net
+    k = 0
+    for _ in range(rng.randint(1, 6)):
+        t = rng.choice(['AND', 'AND', 'XOR', 'OR', 'NAND', 'GT', 'LT', 'NXOR', 'LEQ'])
+        ar = 2 if t in ('GT', 'LT', 'LEQ') else rng.choice([2, 2, 3, 3, 4])
+        ops = []
+        for j in range(ar):
+            src = rng.choice(operand_lists) if rng.random() < 0.85 else [rng.choice(list(g))]
+            ops.append(rng.choice(src))
+        lbl = 'pre%d_%d' % (k, rng.randrange(10 ** 5))
+        k += 1
+        if lbl in g:
+            continue
+        g[lbl] = (t, tuple(ops))
+    return refsem.Net(list(net.inputs), list(net.outputs), g)
